@@ -390,6 +390,139 @@ def materialize(run):
         run.obligation(n2, v2, ms=ms, detail="filter keeps exactly len(x) <= max_length")
 
 
+def _native_update_replay(mod):
+    """Function-level replay on the real parser: an incomplete item whose stored weight is exactly 0.0 (reachable by underflow)
+    receives another contribution; it must not be put on the waiting list a second time."""
+    import importlib
+    import inspect
+    from genlm.grammar.cfg import CFG
+    from genlm.grammar.semiring import Float
+    E = importlib.import_module(f"genlm.grammar.parse.{mod}").Earley
+    parser = E(CFG.from_string("0.5: S -> a S b\n0.5: S -> a b", Float))
+    col = parser.chart(("a",))[-1]
+    item = next(iter(col.i_chart))
+    col.i_chart[item] = 0.0
+    count = lambda: sum(1 for lst in col.waiting_for.values() for x in lst if x == item)   # noqa: E731
+    before = count()
+    Iv, Xv, Ys = item
+    names = list(inspect.signature(parser._update).parameters)
+    kw = dict(col=col, I=Iv, X=Xv, Ys=Ys, value=0.25)
+    if "Q" in names:
+        kw["Q"] = getattr(col, "Q", None) or {}
+    parser._update(**{k: kw[k] for k in names})
+    after = count()
+    return dict(input="Earley(S -> a S b | a b).chart(('a',))[-1]; an incomplete item with stored weight 0.0 gets a second contribution",
+                waiting_list_entries_before=before, after=after, replayed=after > before)
+
+
+def update_accumulates(run, mod, rel, pid="C02"):
+    """<pid>/<mod>.Earley._update/accumulates-registers-once: contract of the chart update, for a generic item and ANY stored value
+    (a stored weight may be exactly zero, e.g. 0.0 after underflow in a long context):
+        absent  ->  chart[item] = value        and the item is registered exactly once (agenda key / waiting list)
+        present ->  chart[item] = was + value  and nothing is registered again
+    for completed items (Ys == 0) and for incomplete ones."""
+    name = f"{pid}/{mod}.Earley._update/accumulates-registers-once"
+    upd = source.find(rel, "Earley._update")
+    params = [a.arg for a in upd.args.args]
+    bad = None
+    n_paths = 0
+    for complete in (True, False):
+        def harness(path, complete=complete):
+            it = I.Interp(path)
+            rec = dict(chart={}, q=[], wait=[], other={})
+            present = z3.Bool("item_present")
+            was = z3.Real("was")
+
+            class Chart:
+                def __init__(self, tag, live):
+                    self.tag, self.live = tag, live
+
+                def __pyvc_getattr__(self, interp, nm, node):
+                    if nm == "get":
+                        def get(i2, a, k):
+                            if not self.live:
+                                raise I.OutOfSubset(f"{self.tag} read for the other kind of item")
+                            return I.Z(was) if i2.path.decide(present) else None
+                        return I.Native("get", get)
+                    raise I.OutOfSubset(f"{self.tag}.{nm}")
+
+                def __pyvc_getitem__(self, interp, k, node):
+                    if not self.live or not interp.path.decide(present):
+                        raise I.PyRaise("KeyError", "item")
+                    return I.Z(was)
+
+                def __pyvc_contains__(self, interp, k):
+                    return I.Z(present) if self.live else False
+
+                def __pyvc_setitem__(self, interp, k, v):
+                    (rec["chart"] if self.live else rec["other"])[self.tag] = v
+
+            class Heap:
+                def __pyvc_setitem__(self, interp, k, v):
+                    rec["q"].append(k)
+
+            class Waiting:
+                def __pyvc_getitem__(self, interp, k, node):
+                    return Bag(append=I.Native("append", lambda i2, a, kw: rec["wait"].append(a[0])))
+
+            class Table:
+                def __pyvc_getitem__(self, interp, k, node):
+                    return I.Z(z3.Int("tbl"))
+
+            col = Bag(k=I.Z(z3.Int("K")), c_chart=Chart("c_chart", complete), i_chart=Chart("i_chart", not complete), Q=Heap(), waiting_for=Waiting())
+            selfobj = Bag(order=Table(), ORDER_MAX=I.Z(z3.Int("M")), first_Ys=Table())
+            value = z3.Real("value")
+            args = {"self": selfobj, "col": col, "Q": Heap(), "I": I.Z(z3.Int("I")), "X": I.Z(z3.Int("X")),
+                    "Ys": 0 if complete else I.Z(z3.Int("Ys")), "value": I.Z(value)}
+            if not complete:
+                path.assume(z3.Int("Ys") != 0)
+            it.call_func(I.FuncObj(upd, I.Env(None, {}), "Earley._update"), [args[pn] for pn in params], {})
+            return rec, present, was, value
+
+        try:
+            results = I.explore(harness)
+        except (I.OutOfSubset, I.PyRaise) as e:
+            run.obligation(name, "out-of-subset", detail=str(e))
+            return
+        for path, (rec, present, was, value) in results:
+            n_paths += 1
+            tag = "c_chart" if complete else "i_chart"
+            regs = rec["q"] if complete else rec["wait"]
+            other = rec["wait"] if complete else rec["q"]
+            pres = smt.prove(list(path.pc), present)["verdict"] == "proved"
+            absn = smt.prove(list(path.pc), z3.Not(present))["verdict"] == "proved"
+            if not (pres or absn):
+                bad = "the path does not depend on whether the item is already in the chart"
+                break
+            stored = rec["chart"].get(tag)
+            if stored is None or rec["other"] or other:
+                bad = f"{'completed' if complete else 'incomplete'} item: wrong table written ({sorted(rec['other'])}, stored={stored is not None})"
+                break
+            want = value if absn else was + value
+            if smt.prove(list(path.pc), I.to_real(stored) == want)["verdict"] != "proved":
+                bad = f"{'completed' if complete else 'incomplete'} item, {'absent' if absn else 'present'}: stored value is not {'value' if absn else 'was + value'}"
+                break
+            if len(regs) != (1 if absn else 0):
+                m = smt.prove(list(path.pc), z3.BoolVal(False)).get("model")
+                bad = (f"{'completed' if complete else 'incomplete'} item that is {'absent' if absn else 'already present'} is registered {len(regs)} time(s)"
+                       + (f" (stored weight was = {smt.model_value(m, was)})" if m is not None and pres else ""))
+                break
+        if bad:
+            break
+    if bad:
+        replay = dict(replayed=False, why=bad,
+                      hint="an item whose stored weight is exactly 0.0 (underflow after ~70 tokens at 1e-5 per token against 0.5) is registered twice")
+        try:
+            replay.update(_native_update_replay(mod))
+        except Exception as e:  # noqa: BLE001
+            replay["native_error"] = repr(e)
+        run.obligation(name, "refuted", backend="pyvc+z3", detail=bad, replay=replay, signature=f"{mod}:_update:registers-once")
+    elif n_paths < 4:
+        run.obligation(name, "out-of-subset", detail=f"vacuous: {n_paths} paths")
+    else:
+        run.obligation(name, "proved", backend="pyvc+z3", detail=f"{n_paths} paths over (completed?, present?): chart accumulates, registration happens exactly on first derivation")
+
+
 def proved(run):
     run.trust("pyvc symbolic interpreter over the real AST", f"z3 {z3.get_version_string()}",
               "SCC_ORDER(B4,B5) for WeightedGraph.buckets [bounded in C15]",
@@ -400,6 +533,12 @@ def proved(run):
             key_order(run, mod, rel)
         except (I.OutOfSubset, I.PyRaise, KeyError) as e:
             run.obligation(f"C02/{mod}.Earley._update/key-order", "out-of-subset", detail=str(e))
+    for mod, rel in EARLEY.items():
+        try:
+            run.function_under_contract(f"genlm.grammar.parse.{mod}.Earley._update", source.sha(source.find(rel, "Earley._update")))
+            update_accumulates(run, mod, rel)
+        except (I.OutOfSubset, I.PyRaise, KeyError) as e:
+            run.obligation(f"C02/{mod}.Earley._update/accumulates-registers-once", "out-of-subset", detail=str(e))
     for f in (unary_graph_edges, result_in_semiring, materialize, parse_chart_recurrence):
         try:
             f(run)
